@@ -1482,6 +1482,15 @@ def replay(pid, path):
     """re-run one saved failing case against the current tree"""
     obj = json.load(open(path))
     case = obj.get("case", obj)
+    if "cmds" in case and str(case.get("id", "")).endswith("-pool"):
+        # the variable pool at its limit: decided by PoolTrace, not by TraceMachine (which cannot carry 65535 variables)
+        st = pool_stage(pid)
+        if st.failures:
+            log("VIOLATION property=%s replay=%s" % (pid, path))
+            log("   why: %s" % st.failures[0]["why"])
+            return 1
+        log("replay passes: %s (accepted by PoolTrace)" % path)
+        return 0
     if "cmds" in case:
         case = dict(case)
         case.setdefault("id", "replay")
